@@ -140,8 +140,11 @@ def check_keep_flow(ctx: Ctx):
         ok = norm(v.elt) == f"qc[{tgt}]" and norm(src) == "returns.bitvec" and conds_ok
         why = f"`keep` is built from `{norm(src)}`"
     ctx.check(ok, "MP-keep-guard", fi, "keep = qubits of returns.bitvec", "[qc[r] for r in ... returns.bitvec]", why + ": exactly the qubits of the return bits must be excluded from the final replay (leaving them out uncomputes the result; adding other names, which may have been re-bound to scratch qubits, leaves those dirty)", ua[0])
-    facts = [norm(e) for e, pol in guard_facts(fi, ua[0]) if pol]
+    all_facts = [(norm(e), pol) for e, pol in guard_facts(fi, ua[0])]
+    facts = [f for f, pol in all_facts if pol]
     ctx.check("uncompute" in facts, "MP-flag", fi, "final replay under the uncompute flag", f"guards={facts}", "uncompute_all is not guarded by the uncompute flag", ua[0])
+    extra = [(f, pol) for f, pol in all_facts if not (pol and f in ("uncompute", "returns is not None"))]
+    ctx.check(not extra, "MP-flag", fi, "final replay is not skipped for any other reason", "conditions: uncompute and returns is not None", f"the final replay is additionally conditioned on {[('' if pol else 'not ') + f for f, pol in extra]}: whenever that makes it skip, every named or shared intermediate qubit keeps its value (scratch is not returned to zero)", ua[0])
     # it is the last circuit-changing step
     idx = q.stmt_index(fi.body, ua[0])
     later = [c for s in fi.body[idx + 1 :] for c in q.calls(s) if (dotted(c.func) or "").startswith("qc.")]
